@@ -718,6 +718,7 @@ struct Engine
             }
             s.present = false;
             removals++;
+            res.vanished[cur_op].insert(s.plain_name);
             projh("rm");
             if (fault_mode) {
                 if (!retention)
@@ -1656,6 +1657,27 @@ Result run_history(const FPlan &plan)
     if (!plan.enumerate) {
         if (has_fault) {
             Result fr = run_single(plan, false, true, false, nullptr);
+            if (fr.ok) {
+                // the differential rule of the enumeration: nothing may vanish in the failed operation that
+                // stays when nothing fails
+                FPlan q0 = plan;
+                int fop = -1;
+                for (size_t i = 0; i < q0.ops.size(); i++)
+                    if (q0.ops[i].fault_call >= 0) {
+                        fop = (int)i;
+                        q0.ops[i].fault_call = -1;
+                    }
+                Result free = run_single(q0, false, false, false, nullptr);
+                if (fop >= 0 && free.ok)
+                    for (auto &name : fr.vanished[fop])
+                        if (!free.vanished[fop].count(name)) {
+                            fr.ok = false;
+                            fr.msg = "op " + std::to_string(fop) + ": rotated file " + name
+                                    + " was deleted, which the same operation does not do when nothing fails"
+                                      " (the failure made the sink delete a file the retention policy still covers)";
+                            break;
+                        }
+            }
             if (!fr.ok && !fr.machinery) {
                 for (size_t i = 0; i < plan.ops.size(); i++)
                     if (plan.ops[i].fault_call >= 0) {
@@ -1688,6 +1710,20 @@ Result run_history(const FPlan &plan)
             q.ops[s[0]].fault_errno = err;
             Result fr = run_single(q, false, true, false, nullptr);
             fault_runs++;
+            if (fr.ok) {
+                // a failure must not make the sink delete rotated files that it keeps when nothing fails:
+                // compare what vanished in the operation that had the failure with the fault-free run
+                const std::set<std::string> &free = r.vanished[s[0]];
+                for (auto &name : fr.vanished[s[0]])
+                    if (!free.count(name)) {
+                        fr.ok = false;
+                        fr.cls = "io-failure-loses-records";
+                        fr.msg = "op " + std::to_string(s[0]) + ": rotated file " + name
+                                + " was deleted, which the same operation does not do when nothing fails"
+                                  " (the failure made the sink delete a file the retention policy still covers)";
+                        break;
+                    }
+            }
             for (auto &kv : fr.probes)
                 if (kv.first == "fault_fired" || kv.first == "rename_fell_back_to_link"
                     || kv.first == "records_refused_device_closed" || kv.first == "errno_injected")
